@@ -38,7 +38,9 @@ MANIFEST = dict(
                 "one flow changes no other flow's record and queues only frames of its own channel (C08_step_frame); every "
                 "other flow keeps C01's prefix guarantee under arbitrary fault schedules (C08_neighbours_safe); the "
                 "complete list of steps that can end a process (C08_death_causes: unknown connect errno, CONNECT for a live "
-                "id, non-stream frame on a TCP channel - nothing else). Replayed against the real classes with fault "
+                "id, non-stream frame on a TCP channel - nothing else), and none of them can occur: from start-up, for "
+                "every schedule whose connect errnos are in the handled set and whose DNS/UDP/control frames are not "
+                "addressed to a TCP flow id, with pairwise distinct flow ids, neither process ever ends (C08_no_death). Replayed against the real classes with fault "
                 "injection on every run; exhaustion / late-frame / server UDP and DNS proxy faults are driven on the real "
                 "client and server functions."),
     level_note=("Trusted: as C01. UDP/DNS flows are outside the Lean model: their containment is decided on the real code "
